@@ -76,6 +76,11 @@ class Ctx:
         self.obligations.append(Obligation(rule, construct, bool(ok), file, line, norm_text(message), detail, recognised=ok is not None))
         return bool(ok)
 
+    def adopt(self, rule: str, o: 'Obligation') -> bool:
+        """an obligation decided by the rules of another property, taken over under `rule` with its verdict unchanged
+        (discharged / violated / not recognised)"""
+        return self.add(rule, o.construct, (o.ok if o.recognised else None), (o.file, o.line), o.message, o.detail, positive=o.recognised and not o.ok)
+
     def shape(self, rule: str, construct: str, matched, where, ok_message: str, what: str) -> bool:
         """An obligation decided by recognising a shape.  A match discharges it.  No match is NOT a violation: the code may
         have been rewritten in an idiom the rule does not know, so the analysis refuses to vouch (exit 2) instead of
